@@ -184,10 +184,11 @@ class BitStringPayloadDecoder(AbstractSimplePayloadDecoder):
 
             return
 
-        if not length:
-            raise error.PyAsn1Error('Empty BIT STRING substrate')
-
         if tagSet[0].tagFormat == tag.tagFormatSimple:  # XXX what tag to check?
+
+            # (the constructed form may well consist of no segments at all)
+            if not length:
+                raise error.PyAsn1Error('Empty BIT STRING substrate')
 
             for trailingBits in readFromStream(substrate, 1, options):
                 if isinstance(trailingBits, SubstrateUnderrunError):
